@@ -789,8 +789,8 @@ fn main() {
      against the recording verifier's log), distinct by the class tuple of those dimensions; plus single-bit flips of P, Y, S of verified tokens",
   );
   let mut rng = args.rng(1);
-  let n_tokens = (if args.thorough { 60_000u64 } else { 4_000 } * scale / 1000 / args.nshards).max(40);
-  let n_flip_tokens = (if args.thorough { 1_200u64 } else { 96 } * scale / 1000 / args.nshards).max(3);
+  let n_tokens = (if args.thorough { 600_000u64 } else { 4_000 } * scale / 1000 / args.nshards).max(40);
+  let n_flip_tokens = (if args.thorough { 4_800u64 } else { 96 } * scale / 1000 / args.nshards).max(3);
   let mut flipped = 0u64;
   for i in 0..n_tokens {
     // every 3rd token is forced well-formed and correctly signed so that acceptance is not vacuous
